@@ -842,6 +842,7 @@ func (vc *FuncVC) typeAssert(st *State, fr *Frame, in *ssa.TypeAssert) any {
 		}
 		if so == SSlice {
 			st.assume(implies(ok, vc.sliceWF(u)))
+			st.assume(implies(ok, or(eq(app("sarr", u), "0"), sel(st.heapGet("alive", aliveSort), app("sarr", u)))))
 		}
 	}
 	if in.CommaOk {
@@ -853,7 +854,7 @@ func (vc *FuncVC) typeAssert(st *State, fr *Frame, in *ssa.TypeAssert) any {
 
 // sliceWF: well-formedness of a slice value from the environment.
 func (vc *FuncVC) sliceWF(s string) string {
-	return and(app("<=", "0", app("soff", s)), app("<=", "0", app("slen", s)), app("<=", app("slen", s), app("scap", s)),
+	return and(app("<=", "0", app("soff", s)), app("<=", "0", app("slen", s)), app("<=", app("slen", s), app("scap", s)), app("<=", app("+", app("soff", s), app("scap", s)), "9223372036854775807"),
 		app(">=", app("sarr", s), "0"), implies(eq(app("sarr", s), "0"), eq(app("scap", s), "0")))
 }
 
